@@ -301,6 +301,17 @@ class SolverRun:
             with quiet():
                 self.solver.evolvent.GetPreimages(np.array(q))
                 self.solver.evolvent.GetInverseImage(np.array(q))
+                # ... and about points the library itself handed out: the reported optimum's own array and the array of the
+                # most recent trial in the search information (read-only queries; the caller passes what it was given)
+                try:
+                    best = self.solver.GetResults().bestTrials[0].point.floatVariables
+                    last = self.solver.searchData.GetLastItem().GetY().floatVariables
+                except Exception:
+                    best = last = None
+                for arr in (best, last):
+                    if arr is not None:
+                        self.solver.evolvent.GetPreimages(arr)
+                        self.solver.evolvent.GetInverseImage(arr)
 
     def refine(self, n, local_fn):
         """DoLocalRefinement(n) with the objective answered by local_fn(y) (local evaluations are logged apart)"""
